@@ -6,8 +6,8 @@ Expression trees (tuples):
     ("a", name)  ("s", name)                      attribute by its identifier / through SELF.name
     ("u", "not"|"neg", x)
     ("b", op, l, r)   op in INT_OPS (int x int -> int), CMP_OPS (int x int -> bool), BOOL_OPS (bool x bool -> bool)
-`broad` trees (compile / totality only, never evaluated against the reference) additionally:
-    ("str", text)  ("bin", bits)  ("real", text)  and the operators div mod rdiv exp
+`broad` trees (outside the Lean fragment; the reference value comes from this module) additionally:
+    ("str", text)  ("bin", bits)  ("real", text)  ("const", "PI"|"CONST_E"|"UNKNOWN"|"?")  and the operator div
 
     b = gen(rng, idx, …)    -> Body
     b.express()             -> EXPRESS source
@@ -41,6 +41,8 @@ def express_of(t):
     if k == "bin":
         return "%" + t[1]
     if k == "real":
+        return t[1]
+    if k == "const":
         return t[1]
     if k == "u":
         return "(" + ("NOT " if t[1] == "not" else "-") + express_of(t[2]) + ")"
@@ -247,6 +249,8 @@ def fixed_bodies():
     out.append(Body("fx_bin", "e", ["a"], [], [("d1", "BINARY", ("bin", "1010"))], [], broad=True))
     out.append(Body("fx_real", "e", ["a"], [], [("d1", "REAL", ("real", "1.5")), ("d2", "REAL", ("real", "2.0E3")),
                                                 ("d3", "REAL", ("real", "1.23456789")), ("d4", "REAL", ("real", "0.1"))], [], broad=True))
+    out.append(Body("fx_const", "e", ["a"], [], [("d1", "REAL", ("const", "CONST_E")), ("d2", "REAL", ("const", "PI")),
+                                                 ("d3", "LOGICAL", ("const", "UNKNOWN")), ("d4", "INTEGER", ("const", "?"))], [], broad=True))
     return out
 
 
